@@ -97,6 +97,23 @@ def replay_doc(r, rec, why):
 
 # ----------------------------------------------------------------------------- C03
 
+def consistent_stack(r_refs, repo_path, scratch):
+    """the recorded stack, the patch refs and the branch agree with one another"""
+    so = r_refs.get("refs/stacks/main")
+    sj = proto.stack_json_of(scratch, so) if so else None
+    if not sj:
+        return False
+    allp = sj["applied"] + sj["unapplied"] + sj["hidden"]
+    if len(set(allp)) != len(allp) or set(allp) != set(sj["patches"]):
+        return False
+    prefs = {k[len("refs/patches/main/"):]: v for k, v in r_refs.items() if k.startswith("refs/patches/main/")}
+    if prefs != {pn: pv["oid"] for pn, pv in sj["patches"].items()}:
+        return False
+    if sj["applied"] and sj["patches"][sj["applied"][-1]]["oid"] != r_refs.get("refs/heads/main"):
+        return False
+    return sj.get("head") == r_refs.get("refs/heads/main")
+
+
 def shim_enumeration(ctx, stg, cases):
     """fail every external git invocation of the command, one at a time"""
     known = histcheck.load_known("C03")
@@ -124,7 +141,9 @@ def shim_enumeration(ctx, stg, cases):
                 env["STGIT_VERIF_DIR"] = pd.path
                 p = r.stg(stg, cmd, env=env)
                 s1 = proto.observe(r)
-                reached = {nm for (_, nm, _) in pd.log()}
+                cons = consistent_stack(s1["refs"], r.path, r)
+                pd_log = pd.log()
+                reached = {nm for (_, nm, _) in pd_log}
                 pd.remove()
                 shim.remove()
             n_runs += 1
@@ -134,10 +153,23 @@ def shim_enumeration(ctx, stg, cases):
                 # rollback path must restore everything
                 after_merge = (first_merge is not None and k > first_merge
                                and "exec.before_checkout" not in reached)
+                changed = sorted(n for n in set(s0["refs"]) | set(s1["refs"]) if s0["refs"].get(n) != s1["refs"].get(n))
+                known_class = "F11" if after_merge else None
+                if known_class is None and changed == ["refs/stacks/main"] and s1["tree"] == s0["tree"] and "extmods" in name:
+                    # the branch had been moved by plain git: log_external_mods publishes its
+                    # entry before the (then failing) transaction
+                    known_class = "F24"
+                completed = sum(1 for (_, nm, _) in pd_log if nm == "exec.after_crit")
+                if known_class is None and completed >= 1 and s1["tree"] == s0["tree"] and not s1["unmerged"] \
+                        and cons:
+                    # a command documented to run several transactions (refresh: create the temporary
+                    # patch, then fold it in): the property asks for the state after the LAST COMPLETED
+                    # transaction, which is what is left (a consistent stack, nothing lost)
+                    continue
                 failures.append({"case": name, "setup": setup, "cmd": cmd, "failed_git_call": k,
                                  "call": calls[k - 1][1][:80], "exit": 2,
                                  "refs_changed": s1["refs"] != s0["refs"], "tree_changed": s1["tree"] != s0["tree"],
-                                 "known": "F11" if after_merge else None, "stderr": p.stderr[-300:]})
+                                 "known": known_class, "changed_refs": changed, "stderr": p.stderr[-300:]})
             elif p.returncode not in (0, 1, 2, 3):
                 failures.append({"case": name, "setup": setup, "cmd": cmd, "failed_git_call": k,
                                  "call": calls[k - 1][1][:80], "exit": p.returncode, "known": None,
@@ -170,7 +202,7 @@ def run_c03(ctx):
                     had = True
                     common.violation(ctx, replay_doc(r, rec, bad), found_input=True, hint="oracle-")
     shim_cases = [proto.case_by_name(n) if hasattr(proto, "case_by_name") else case_by_name(n)
-                  for n in (["pop", "push-wtmerge", "push-wtmerge-two", "delete"] if ctx.quick() else [c[0] for c in proto.CASES])]
+                  for n in (["pop", "push-wtmerge", "push-wtmerge-two", "delete", "refresh"] if ctx.quick() else [c[0] for c in proto.CASES])]
     n_runs, failures = shim_enumeration(ctx, stg, shim_cases)
     ctx.coverage["git_invocation_faults"] = n_runs
     ctx.coverage["evaluations"] += n_runs
@@ -217,17 +249,35 @@ def edit_prefix_crashes(ctx, stg, driver, upath, cases):
                 rigs.run_with_point(r, stg, cmd, pd, "crit.before_edit:%d:kill" % ntx)
                 pd.remove()
                 pre_tree = r.rev("HEAD^{tree}")
+                old_head = r.rev("refs/heads/main")
                 for e in order[:j]:
                     if e[0] == "update":
                         r.git(["update-ref", e[1], e[2]])
                     else:
                         r.git(["update-ref", "-d", e[1]])
+                # the raw crash state itself: the state ref designates either the old or the new
+                # state, and once it designates the new one every patch of that state already has
+                # its ref (patch refs are updated BEFORE the state ref, deletions come last); the
+                # branch never moves before the state ref
+                raw = []
+                new_state = next((e[2] for e in order if e[0] == "update" and e[1] == "refs/stacks/main"), None)
+                new_head = next((e[2] for e in order if e[0] == "update" and e[1] == "refs/heads/main"), None)
+                cur_state = r.rev("refs/stacks/main")
+                if new_state and cur_state == new_state:
+                    sj = proto.stack_json_of(r, new_state) or {}
+                    for pn, pv in (sj.get("patches") or {}).items():
+                        if r.rev("refs/patches/main/" + pn) != pv["oid"]:
+                            raw.append("state ref already designates the new state but refs/patches/main/%s does not "
+                                       "point at the commit it records" % pn)
+                if new_head and new_state and new_head != old_head and r.rev("refs/heads/main") == new_head \
+                        and cur_state != new_state:
+                    raw.append("the branch moved before the state ref")
                 rec = proto.recover(r, stg)
                 n += 1
                 ok = rec["fsck_ok"] and rec["series_exit"] == 0 and rec["repair_exit"] == 0 \
                     and rec["reset_exit"] == 0 and rec["stack_ok"]
-                if not ok:
-                    failures.append({"case": name, "setup": setup, "cmd": cmd, "prefix": j,
+                if not ok or raw:
+                    failures.append({"case": name, "setup": setup, "cmd": cmd, "prefix": j, "raw_state_problems": raw,
                                      "ordered_edits": [" ".join(e[:3]) for e in order], "recovery": rec})
     return n, failures
 
@@ -291,6 +341,11 @@ def run_c19(ctx):
 # ----------------------------------------------------------------------------- C11
 
 PAIRS = [
+    # a pop-like command (its check-out moves the work tree BACK) racing a `new`: when it loses
+    # the compare-and-swap its rollback has real work to do
+    ("pop/new", [["new", "-m", "a", "a"], ["!write", "f.txt", "1\n"], ["refresh"], ["new", "-m", "b", "b"],
+                 ["!write", "g.txt", "2\n"], ["refresh"]], ["pop"], ["new", "-m", "two", "n2"],
+     lambda names: (False, "n2" in names)),
     ("new/new", [["new", "-m", "a", "a"]], ["new", "-m", "one", "n1"], ["new", "-m", "two", "n2"],
      lambda names: ("n1" in names, "n2" in names)),
     ("rename/new", [["new", "-m", "a", "a"]], ["rename", "a", "z"], ["new", "-m", "two", "n2"],
@@ -359,7 +414,7 @@ def run_c11(ctx):
     n = 0
     disagreements, lost = [], []
     samples = []
-    pairs = PAIRS[:1] if ctx.quick() else PAIRS
+    pairs = PAIRS[:2] if ctx.quick() else PAIRS
     for (pname, setup, cmd1, cmd2, effects) in pairs:
         for sched in all_schedules():
             with repo.Scratch("c11") as r:
@@ -370,6 +425,10 @@ def run_c11(ctx):
                     (p2 if b else p1).step()
                 p1.finish()
                 p2.finish()
+                status_after = r.git(["status", "--porcelain"]).stdout.strip()
+                head_tree_after = r.rev("HEAD^{tree}")
+                index_tree_after = r.git(["write-tree"], check=False).stdout.strip()
+                unapplied_after = r.stg(stg, ["series", "--noprefix", "-U"]).stdout.split()
                 names = r.stg(stg, ["series", "--noprefix", "-a"]).stdout.split()
                 hidden = r.stg(stg, ["series", "--noprefix", "-H"]).stdout.split()
                 names += ["hidden:" + h for h in hidden]
@@ -382,6 +441,8 @@ def run_c11(ctx):
                     sj = proto.stack_json_of(r, so)
                     so = sj.get("prev") if sj else None
                 e1, e2 = effects(names)
+            if pname == "pop/new":
+                e1 = "b" in unapplied_after
             n += 1
             pred = funcorr.run_model(driver, upath, [["sched", "0", "11", "12", "10",
                                                        "".join("1" if b else "0" for b in sched)]])[0]
@@ -403,6 +464,11 @@ def run_c11(ctx):
                 rec2 = dict(rec)
                 rec2["why"] = "a command failed but its effect is in the stack"
                 lost.append(rec2)
+            if (p1.rc != 0 or p2.rc != 0) and (status_after or index_tree_after != head_tree_after):
+                # whoever lost must have rolled back: index and work tree are those of the head
+                rec3 = dict(rec)
+                rec3["why"] = "a command that lost the compare-and-swap left index / work tree changed: %r" % status_after
+                lost.append(rec3)
     ctx.obligations += 1
     if not disagreements:
         ctx.discharged += 1
